@@ -9,6 +9,7 @@ import hashlib
 import importlib
 import json
 import os
+import re
 import subprocess
 import sys
 import time
@@ -110,6 +111,20 @@ def prove(run, cfg, budget_ms):
                     continue
                 except symexec.ContractStale as e:
                     run.undecided.append({'fid': c.fid, 'why': f'contract stale: {e}'})
+                    continue
+                except Exception as e:  # noqa: BLE001
+                    # the contract machinery itself failed.  On a function whose source differs from the baseline this
+                    # is a limit of the engine on the new code (undecided, exit 2); on unchanged source it is a bug
+                    # of the checker (exit 3)
+                    base = baseline.get(c.fid, {})
+                    try:
+                        same = base.get('src') == ex.func_source_hash(c.qualname)
+                    except Exception:  # noqa: BLE001
+                        same = False
+                    if same:
+                        raise
+                    run.undecided.append({'fid': c.fid, 'why': f'the verifier could not execute the changed function '
+                                          f'under its contract: {type(e).__name__}: {str(e)[:200]}'})
                     continue
                 if not obs:
                     run.errors.append(f'{c.fid}: zero obligations generated (vacuity guard)')
@@ -296,9 +311,12 @@ def run_bounded(run, cfg):
             continue
         run.bounded.append({'function': f'{sidecar}.{fn}', 'cases': out['cases'],
                             'nontrivial': out.get('nontrivial', out['cases']),
-                            'bound': item[2] if len(item) > 2 else out.get('bound', ''),
+                            'bound': item[2] if len(item) > 2 and item[2] else out.get('bound', ''),
                             'wall_s': out['wall_s'], 'samples': out.get('samples', [])[:2]})
+        only = re.compile(item[3]) if len(item) > 3 and item[3] else None
         for fl in ([out['fail']] if out.get('fail') else []) + list(out.get('fails', [])):
+            if only is not None and not only.search(fl.get('clause', '')):
+                continue  # this property only uses the clauses of the shared check that match item[3]
             path = run.replay_path('bounded')
             json.dump({'property': run.pid, 'sidecar': sidecar, 'kind': 'custom', 'replay_fn': fl.get('replay_fn', fn + '_replay'),
                        'fid': fl.get('fid', f'{sidecar}.{fn}'), 'case': fl.get('case'), 'native': fl}, open(path, 'w'), indent=1)
